@@ -6,7 +6,7 @@ from ..common import Report, main_wrapper, scratch
 from ..edgecheck import collect_edges, decide_edges
 from .args import parse
 
-MODULES = ["harness.corpus.indexgen", "harness.corpus.basic"]
+MODULES = ["harness.corpus.indexgen", "harness.corpus.indexmat", "harness.corpus.basic"]
 
 
 def main():
